@@ -47,6 +47,9 @@ pub enum Base {
     Coded { payload: Payload, gzip: bool, chunked: bool },
     Redirect { status: u16, location: String },
     Json { depth: u8, chunked: bool },
+    /// a JSON body nested 2^levels_log2 deep (arrays, or objects with one member), with or without the closing brackets: how
+    /// deep a peer nests is the peer's choice, the client's stack is not
+    DeepJson { levels_log2: u8, closed: bool, objects: bool },
     Charset { label: String, payload: Payload },
     ConnectReply { status: u16, body: Payload },
 }
@@ -95,6 +98,7 @@ fn base_strategy() -> BoxedStrategy<Base> {
               prop_oneof![Just("/next".to_string()), Just("http://other.test:8080/x?y=1".to_string()), Just("../up".to_string()), Just("//h2.test/p".to_string())])
             .prop_map(|(status, location)| Base::Redirect { status, location }),
         2 => (0u8..40, any::<bool>()).prop_map(|(depth, chunked)| Base::Json { depth, chunked }),
+        1 => (7u8..=20, any::<bool>(), any::<bool>()).prop_map(|(levels_log2, closed, objects)| Base::DeepJson { levels_log2, closed, objects }),
         2 => (prop_oneof![Just("utf-8"), Just("UTF-16LE"), Just("shift_jis"), Just("iso-2022-jp"), Just("gbk"), Just("windows-1252"), Just("bogus")], small_payload())
             .prop_map(|(label, payload)| Base::Charset { label: label.to_string(), payload }),
         2 => (prop_oneof![1 => 200u16..300, 6 => 100u16..200, 12 => 300u16..600], gen::small_payload(400)).prop_map(|(status, body)| Base::ConnectReply { status, body }),
@@ -162,6 +166,22 @@ fn build_base(base: &Base) -> (Vec<u8>, Vec<usize>) {
             }
             let framing = if *chunked { Framing::Chunked(gen::ChunkPlan { sizes: vec![9], styles: vec![], last: gen::ChunkStyle { hex: 0, zeros: 0, ext: 0 }, trailers: 0 }) } else { Framing::Length };
             let b = build_response(200, &[("Content-Type".into(), b"application/json; charset=utf-8".to_vec())], &framing, 0, s.as_bytes());
+            (b.wire, b.structural)
+        }
+        Base::DeepJson { levels_log2, closed, objects } => {
+            let n = 1usize << (*levels_log2).min(21);
+            let (open, close) = if *objects { ("{\"k\":", "}") } else { ("[", "]") };
+            let mut s = String::with_capacity(n * (open.len() + close.len()) + 1);
+            for _ in 0..n {
+                s.push_str(open);
+            }
+            if *closed {
+                s.push('1');
+                for _ in 0..n {
+                    s.push_str(close);
+                }
+            }
+            let b = build_response(200, &[("Content-Type".into(), b"application/json".to_vec())], &Framing::Length, 0, s.as_bytes());
             (b.wire, b.structural)
         }
         Base::Charset { label, payload } => {
@@ -477,10 +497,15 @@ CONNECT) then a generated API call mix. Oracle: no panic, termination decided by
             Api::Json,
             Api::TextReader(7),
         ];
+        // (fixed members: JSON nested far deeper than any stack, read with json())
+        let deep = [(20u8, true, false), (20, false, false), (19, true, true), (12, true, false)]
+            .into_iter()
+            .map(|(levels_log2, closed, objects)| Case::Mutant { base: Base::DeepJson { levels_log2, closed, objects }, ops: vec![], seg: Seg::Whole, api: Api::Json });
         let endless = (0..20u8).flat_map(move |kind| apis.clone().into_iter().map(move |api| Case::Endless { kind, api }));
         Some(Box::new(
             alpha
                 .chain(endless)
+                .chain(deep)
                 .enumerate()
                 .filter(move |(i, _)| i % nworkers == worker)
                 .map(|(_, c)| c),
@@ -560,6 +585,7 @@ CONNECT) then a generated API call mix. Oracle: no panic, termination decided by
                     Base::Coded { .. } => "mutant:coded",
                     Base::Redirect { .. } => "mutant:redirect",
                     Base::Json { .. } => "mutant:json",
+                    Base::DeepJson { .. } => "mutant:deeply-nested-json",
                     Base::Charset { .. } => "mutant:charset",
                     Base::ConnectReply { .. } => "mutant:connect-reply",
                 });
